@@ -1,0 +1,45 @@
+//! Verification hooks (feature `verif-hooks`, off by default).
+//!
+//! Pure wrappers around private kernels; nothing here changes library behaviour.
+#![allow(unsafe_code)]
+
+/// CTZ-loop select (the fallback of `select_in_word`).
+pub fn select_in_word_ctz(x: u64, k: u32) -> u32 {
+    crate::util::broadword::verif_select_in_word_ctz(x, k)
+}
+
+/// Broadword/SWAR select.
+pub fn select_in_word_broadword(x: u64, k: u32) -> u32 {
+    crate::util::broadword::select_in_word_broadword(x, k)
+}
+
+/// Table-driven select within one byte.
+pub fn select_in_byte(byte: u8, k: u32) -> u32 {
+    crate::util::table::select_in_byte(byte, k)
+}
+
+/// PDEP select.
+///
+/// # Safety
+/// Requires BMI2.
+#[cfg(target_arch = "x86_64")]
+#[target_feature(enable = "bmi2")]
+pub unsafe fn select_in_word_pdep(x: u64, k: u32) -> u32 {
+    crate::util::simd::x86::select_in_word_pdep(x, k)
+}
+
+/// Whether the `select_in_word` dispatcher would take the PDEP path.
+#[cfg(target_arch = "x86_64")]
+pub fn has_fast_bmi2() -> bool {
+    crate::util::simd::x86::has_fast_bmi2()
+}
+
+/// AVX2 8-word block popcount.
+///
+/// # Safety
+/// Requires AVX2; `block.len()` must be `bits::BLOCK`.
+#[cfg(target_arch = "x86_64")]
+#[target_feature(enable = "avx2")]
+pub unsafe fn block_popcount_avx2(block: &[u64]) -> usize {
+    crate::bits::verif_block_popcount_avx2(block)
+}
